@@ -75,6 +75,15 @@ def x_div_neg(n: size, x: f32[n + 4], y: f32[n]):
         y[i] = x[(i - 3) / 2 + 2]
 ''')
 
+# a size-typed numerator that can be negative: `n - 8` has type `size` for the type checker, yet is negative for n < 8
+# (seeded change C02_3 treated every size-typed expression as non-negative and emitted C `/` for it)
+_add("x_div_neg_size", '''
+@proc
+def x_div_neg_size(n: size, x: f32[2 * n + 8], y: f32[n]):
+    for i in seq(0, n):
+        y[i] = x[(n - 8) / 4 + 2 + i]
+''')
+
 _add("x_div_neg_bound", '''
 @proc
 def x_div_neg_bound(n: size, k: index, x: f32[n + 8]):
